@@ -3,17 +3,19 @@
 
    Model (Model/IoCopy.v, transcribed from /repo/mujoco_warp/_src/io.py):
      get_data_into:  filter_world = `ncon_filter[:nacon] = worldid[:nacon] == world_id`;
-                     efc_idx_old / adr_old = the efc re-indexing and the emitted contact.efc_address AS /repo COMPUTES THEM
-                     (arange(ne+nf+nl) ++ concat_c efc_address[c,:ndim], [:nefc]); get_rows = `d.efc.X[world_id, efc_idx]` with
-                     numpy's negative-index wrap and the shape check of `result.efc_X[:] = ..`;
-                     efc_idx_fixed / adr_fixed = the repaired re-indexing of proposed_fixes/C31_rowless_contact.diff
-                     (entries < 0 dropped, address -1 for a contact without rows).
+                     efc_idx_fixed / adr_fixed = the efc re-indexing and the emitted contact.efc_address AS /repo COMPUTES THEM since
+                     commit 0698005 (arange(ne+nf+nl) ++ concat_c [a in efc_address[c,:ndim], a >= 0], [:nefc]; address -1 for a
+                     contact without rows); C31_current_variant_fixed ties this choice to the regenerated skeleton;
+                     get_rows = `d.efc.X[world_id, efc_idx]` with numpy's negative-index wrap and the shape check of
+                     `result.efc_X[:] = ..`;
+                     efc_idx_old / adr_old = the EXPLICIT OLD definition (before the repair: negative entries kept), kept as
+                     documentation of defect F10 (C31_efc_idx_perm, C31_efc_idx_refuted, C31_put_get_roundtrip_partial/_refuted).
      put_data:       put_contacts (tile over nworld, worldid, pad to naconmax, efc_address rows), put_row.
      put_model:      the three table-driven feature checks (array_rejects / scalar_rejects / flags_rejects).
    Skeleton (Gen/Skel_io.v, REGENERATED from io.py / types.py / the installed mujoco module on every run):
      enum_pairs, reject_rows, reject_sites, exempt, model_fields, data_fields, get_reads.
-   The refutations are about the explicit old definitions, so this file keeps compiling when /repo is repaired; which variant
-   /repo contains is reported by the extractor (Skel_io.efc_idx_variant) and tied by the correspondence run of bin/props/C31.py. *)
+   Which variant /repo contains is reported by the extractor (Skel_io.efc_idx_variant, stated below) and tied by the correspondence
+   run of bin/props/C31.py (model evaluated by vm_compute against the real get_data_into / put_data). *)
 From Coq Require Import ZArith String List Bool Permutation.
 From VF Require Import Model.IoCopy Proof.IoCopy Gen.Skel_io.
 Import ListNotations.
@@ -30,7 +32,7 @@ Theorem C31_contact_world_filter :
 Proof. exact contact_world_filter. Qed.
 Print Assumptions C31_contact_world_filter.
 
-(* ---- get_data_into: efc re-indexing as /repo computes it ---- *)
+(* ---- get_data_into: the OLD efc re-indexing (explicit old definition, documentation of F10) ---- *)
 (* if every listed contact owns all its rows (addresses >= 0, 1 <= ndim <= row width) and the blocks are exactly the contact rows
    [efl, nefc) without repetition, efc_idx is a permutation of [0,nefc), keeps the equality/friction/limit rows in place, and output
    row (emitted address of contact i) + j is device row efc_address[i][j]: MuJoCo's order, addresses = block starts *)
@@ -63,7 +65,7 @@ Theorem C31_efc_idx_refuted :
 Proof. exact efc_idx_refuted. Qed.
 Print Assumptions C31_efc_idx_refuted.
 
-(* ---- get_data_into: the repaired re-indexing (for the coordinator to switch to when the fix lands) ---- *)
+(* ---- get_data_into: the efc re-indexing of the CURRENT code ---- *)
 (* no hypothesis on row-less or partially allocated contacts: whenever the non-negative addresses are exactly [efl, nefc) without
    repetition (what _efc_contact_init produces, overflow included), efc_idx is a permutation of [0,nefc) in MuJoCo's order, a contact
    without rows gets address -1 and every other contact the start of its block *)
@@ -90,7 +92,7 @@ Theorem C31_put_get_contacts :
 Proof. exact put_get_contacts. Qed.
 Print Assumptions C31_put_get_contacts.
 
-(* repaired model: for MuJoCo-layout data (contact i owns rows [adr_i, adr_i+ndim_i) after the previous active contact, adr = -1
+(* current code: for MuJoCo-layout data (contact i owns rows [adr_i, adr_i+ndim_i) after the previous active contact, adr = -1
    without rows) every world returns the contacts, their efc_address and every efc row array unchanged *)
 Theorem C31_put_get_roundtrip_fixed :
   forall (zero : Z) pyr width nworld naconmax njmax ne nf nl hs (rows : list Z) w,
@@ -107,7 +109,7 @@ Theorem C31_put_get_roundtrip_fixed :
 Proof. exact (@put_get_roundtrip_fixed Z). Qed.
 Print Assumptions C31_put_get_roundtrip_fixed.
 
-(* what /repo does: the same, but only when no contact is row-less (partial: the hypothesis `h_adr h <> -1` is what F10 breaks) *)
+(* the old definition: the same, but only when no contact is row-less (partial: the hypothesis `h_adr h <> -1` is what F10 broke) *)
 Theorem C31_put_get_roundtrip_partial :
   forall (zero : Z) pyr width nworld naconmax njmax ne nf nl hs (rows : list Z) w,
   (w < nworld)%nat -> (nworld * length hs <= naconmax)%nat -> 0 <= ne + nf + nl ->
@@ -151,13 +153,21 @@ Theorem C31_roundtrip_fields_cover_state :
 Proof. exact roundtrip_fields_cover_state. Qed.
 Print Assumptions C31_roundtrip_fields_cover_state.
 
-(* every device field get_data_into reads is filled by put_data from the MjData, except the listed ones (finding: efc.state and
-   efc.island stay zero, the island arrays are wp.empty although nisland is copied) -- partial: the exception list should be empty *)
-Theorem C31_get_reads_filled_partial :
+(* every device field get_data_into reads is filled by put_data from the MjData (none left zero / uninitialised) *)
+Theorem C31_get_reads_filled :
   forall f, In f (all_reads get_reads) ->
-    (exists k, kind_of data_fields f = Some k /\ (k = FHost \/ k = FExplicit \/ k = FConst)) \/ In f known_unfilled.
-Proof. exact get_reads_filled_partial. Qed.
-Print Assumptions C31_get_reads_filled_partial.
+    exists k, kind_of data_fields f = Some k /\ (k = FHost \/ k = FExplicit \/ k = FConst).
+Proof. exact get_reads_filled. Qed.
+Print Assumptions C31_get_reads_filled.
+
+Theorem C31_unfilled_reads_empty : unfilled_reads data_fields get_reads = [].
+Proof. exact unfilled_reads_empty. Qed.
+Print Assumptions C31_unfilled_reads_empty.
+
+(* the re-indexing block of the current get_data_into is the repaired one: the *_fixed theorems are about the current code *)
+Theorem C31_current_variant_fixed : efc_idx_variant = "fixed"%string.
+Proof. exact current_variant_fixed. Qed.
+Print Assumptions C31_current_variant_fixed.
 
 (* ---- put_model ---- *)
 (* feature rejection: every value of every mujoco enum that types.py mirrors is defined by MJWarp, or rejected by a put_model table
